@@ -267,7 +267,7 @@ class C19(core.Check):
         self._last = o
         return (outcome, ents, [tuple(w) for w in o["wire"]], o["waited"], o["left"],
                 # not compared with the model (timing-level facts for the oracle only)
-                ("x", o["overlap"], o["insecure_bytes"], [(s[0], _loc(s[1]), s[2], s[3], s[6]) for s in o["served"]], o["raised"][0] if o["raised"] else None, list(o["rids"])))
+                ("x", o["overlap"], o["insecure_bytes"], [(s[0], _loc(s[1]), s[2], s[3], s[6]) for s in o["served"]], o["raised"][0] if o["raised"] else None, list(o["rids"]), bool(o.get("sentinel_ok", True)), o.get("cmode", 0)))
 
     def compare_view(self, case, obs):
         if case[0] == "loop":
@@ -295,8 +295,10 @@ class C19(core.Check):
     def _oracle(self, case, obs):
         secure, servers, late = case[0], case[2], case[3]
         reqs = effective19(case, obs[1])
-        outcome, ents, wire, waited, left, (_, overlap, insecure_bytes, served, raised, rids) = obs
+        outcome, ents, wire, waited, left, (_, overlap, insecure_bytes, served, raised, rids, sentinel_ok, cmode) = obs
         bad = []
+        if not sentinel_ok:
+            bad.append("caller-responses-deque-disturbed")
         if overlap:
             bad.append("one-at-a-time")
         if secure and (insecure_bytes or any(not w[1] for w in wire)):
@@ -388,7 +390,7 @@ class C19(core.Check):
 
     def _stuck_on(self, case, obs):
         """id of the known finding if the first request without an entry was drawing a response that cannot complete"""
-        outcome, ents, wire, waited, left, (_, overlap, insecure_bytes, served, raised, rids) = obs
+        outcome, ents, wire, waited, left, (_, overlap, insecure_bytes, served, raised, rids, sentinel_ok, cmode) = obs
         groups = self._walk(case, obs)
         idx = groups.get(len(ents))
         if outcome == "running" and waited and idx and idx[-1] == len(wire) - 1:
@@ -413,7 +415,7 @@ class C19(core.Check):
         if case[0] == "loop":
             return (["real-loopback-sockets"] if self._loopable(case[1]) else []) + self.features(case[1], obs)
         secure, reqs, servers, late = case[:4]
-        outcome, ents, wire, waited, left, (_, overlap, insecure_bytes, served, raised, rids) = obs
+        outcome, ents, wire, waited, left, (_, overlap, insecure_bytes, served, raised, rids, sentinel_ok, cmode) = obs
         f = ["https" if secure else "http", f"reqs={len(reqs)}", f"servers={len(servers)}", "outcome:" + outcome, "late" if late else "upfront"]
         f += [f"entries={min(len(ents), 6)}", "waited-at-end" if waited else "idle-at-end"]
         if any(e[2] for e in ents):
@@ -431,6 +433,7 @@ class C19(core.Check):
                 f.append("location:with-query" + (":request-had-args" if _tp(w[3])[1] else ""))
         if any(_qa(r) for r in reqs):
             f.append("requests-with-query-args")
+        f.append(["containers:client-own", "containers:caller-owned-empty", "containers:caller-owned-prefilled-shared"][cmode])
         if len(case) > 4:
             f.append("second-run-after-reopen" + (":stored-path-reused" if any(not r[1] for r in case[4]) else ""))
         if any(b" " in r[1] or b"%" in r[1] or any(c > 127 for c in r[1]) for r in reqs):
